@@ -140,9 +140,9 @@ def kv(cmd, jobs, flavor="rc", per_job_timeout=20.0, tag=None, extra_env=None):
                     break
             if nxt is None:
                 break
-            if p.returncode == 0:
+            if p.returncode == 0 and not (nxt > 0 and isinstance(results[nxt - 1], dict) and results[nxt - 1].get("exit_after")):
                 raise ToolError("kv %s: job %d produced no result" % (cmd, nxt))
-            skip = nxt
+            skip = nxt          # the harness left after a job whose threads cannot be recovered: carry on after it
     try:
         os.remove(path)
     except OSError:
